@@ -581,6 +581,9 @@ been initialized
                         render_data, real_render_args, output
                     )
                     raise
+        except KeyboardInterrupt:
+            if not animation:
+                raise
         finally:
             output.write("\n")
             if hide_cursor:
